@@ -145,7 +145,7 @@ def generate(rng, tier):
 
 def gen_case(rng):
     n = rng.randint(2, 6)
-    history = gitsim.gen_history(rng, n)
+    history = gitsim.gen_history(rng, n, moves=True)
     if rng.random() < 0.8:
         # one-character file names in the root are kept rare (they have their own finding)
         history = _rename_component(history, "z", "zed")
